@@ -649,4 +649,36 @@ theorem clearAllReal_view (w : CfiStackWalker) (names : List String)
       · simp [hs]
       · by_cases hst : s ∈ t <;> simp [hs, hst]
 
+/-! ## the ARM64 post-processing, one step -/
+
+theorem getAlways_raw {c : Ctx} (st : Regs.State) {n : String} (hn : n ∈ knownNames c) :
+    Regs.getAlways c st n = .ok (rawOf c st n) := by
+  obtain ⟨cell, hc, hg⟩ := Regs.getAlways_known st hn
+  rw [hg]; simp only [rawOf, hc]
+
+theorem setRegister_raw {c : Ctx} (st : Regs.State) {n : String} (hn : n ∈ knownNames c) (v : Nat) :
+    Regs.setRegister c st n v = .ok (some (writeOf c st n v)) :=
+  Cpu.setRegister_known (.ctx c) st hn v
+
+theorem getRegister_raw {c : Ctx} (st : Regs.State) {n : String} {S : List String} (hn : n ∈ knownNames c)
+    (hS : ∀ s ∈ S, s ∈ knownNames c) :
+    Regs.getRegister c st n (.some S) = .ok (if S.any (sameReg c n) then some (rawOf c st n) else none) := by
+  obtain ⟨_, cell, hc, hg⟩ := validity_honoured c st n S hn hS
+  rw [hg]; simp only [rawOf, hc]
+
+/-- one step of the ARM64 post-processing, decided -/
+theorem stripStep_eq (k : Kind) (valid : List String) (hvalid : ∀ s ∈ valid, s ∈ knownNames k.rawCtx)
+    (mask : Nat) (st : Regs.State) (r : String × Bool) (hr : r.1 ∈ knownNames k.rawCtx) :
+    stripStep k valid mask st r = .ok
+      (if r.2 || valid.any (sameReg k.rawCtx r.1) then writeOf k.rawCtx st r.1 (rawOf k.rawCtx st r.1 &&& mask)
+       else st) := by
+  unfold stripStep
+  cases hb : r.2 with
+  | true => simp only [if_true, getAlways_raw st hr, setRegister_raw st hr, Bool.true_or]
+  | false =>
+    simp only [Bool.false_eq_true, if_false, getRegister_raw st hr hvalid, Bool.false_or]
+    by_cases hc : valid.any (sameReg k.rawCtx r.1) = true
+    · simp only [hc, if_true, setRegister_raw st hr]
+    · simp only [hc, Bool.false_eq_true, if_false]
+
 end MdModel.CfiWalker
